@@ -8,7 +8,7 @@ nesting, Lagrange identity, Jacobian inverse, circumdiameter) are in Props/C11Ge
   `InRange nv els`     every vertex index is `< nv`.
 A table entry `T[i]? = some x` reads "row/column i of the table exists and equals x".
 -/
-import BemppVerif.Lemmas.TopoUnion
+import BemppVerif.Lemmas.TopoNormalize
 
 namespace BemppVerif.C11
 open BemppVerif.Model.Topo BemppVerif.Model.Geom BemppVerif.Gen BemppVerif.Lemmas.Topo
@@ -433,6 +433,58 @@ theorem union_elements (Vs : List (List (V3 K))) (gs : List (Nat × List Tri × 
   | true =>
     simp only [if_true, swapTri_eq, shiftTri, corners, hv _ hin.1, hv _ hin.2.1, hv _ hin.2.2]
 
+/-- `normalize_array` of `union` (used when no domain indices are given) is order preserving: two elements get
+different / ordered new domain indices iff their old ones were different / ordered (domains are neither merged nor
+split). -/
+theorem normalize_array_order_preserving (arr : List Nat) (i j x y : Nat) (hi : arr[i]? = some x)
+    (hj : arr[j]? = some y) :
+    ∃ x' y', (normalizeArray arr)[i]? = some x' ∧ (normalizeArray arr)[j]? = some y' ∧ (x' < y' ↔ x < y) ∧
+      (x' = y' ↔ x = y) := by
+  rw [normalizeArray_eq_rank]
+  have hmx := listMin_le arr x (List.mem_of_getElem? hi)
+  have hmy := listMin_le arr y (List.mem_of_getElem? hj)
+  have hxu : x - listMin arr ∈ uniqueSorted (arr.map (· - listMin arr)) := by
+    rw [mem_uniqueSorted, List.mem_map]; exact ⟨x, List.mem_of_getElem? hi, rfl⟩
+  have hyu : y - listMin arr ∈ uniqueSorted (arr.map (· - listMin arr)) := by
+    rw [mem_uniqueSorted, List.mem_map]; exact ⟨y, List.mem_of_getElem? hj, rfl⟩
+  have hs := uniqueSorted_sorted (arr.map (· - listMin arr))
+  refine ⟨(uniqueSorted (arr.map (· - listMin arr))).idxOf (x - listMin arr),
+    (uniqueSorted (arr.map (· - listMin arr))).idxOf (y - listMin arr), by simp [hi], by simp [hj], ?_, ?_⟩
+  · rw [sorted_idxOf_lt _ hs _ _ hxu hyu]; omega
+  · have h1 := sorted_idxOf_lt _ hs _ _ hxu hyu
+    have h2 := sorted_idxOf_lt _ hs _ _ hyu hxu
+    constructor
+    · intro h; omega
+    · intro h; subst h; rfl
+
+/-- the new domain indices produced by `normalize_array` are exactly `0 .. N-1`, `N` the number of distinct values. -/
+theorem normalize_array_range (arr : List Nat) (k : Nat) :
+    k ∈ normalizeArray arr ↔ k < (uniqueSorted (arr.map (· - listMin arr))).length := by
+  rw [normalizeArray_eq_rank]
+  simp only [List.mem_map]
+  constructor
+  · rintro ⟨x0, ⟨x, hx, rfl⟩, rfl⟩
+    apply List.idxOf_lt_length_of_mem
+    rw [mem_uniqueSorted, List.mem_map]; exact ⟨x, hx, rfl⟩
+  · intro hk
+    have hmem : (uniqueSorted (arr.map (· - listMin arr)))[k] ∈ arr.map (· - listMin arr) := by
+      rw [← mem_uniqueSorted]; exact List.getElem_mem hk
+    rw [List.mem_map] at hmem
+    obtain ⟨x, hx, hxe⟩ := hmem
+    refine ⟨_, ⟨x, hx, rfl⟩, ?_⟩
+    have h1 := getElem?_idxOf_of_mem _ _ (List.getElem_mem hk)
+    have h2 : (uniqueSorted (arr.map (· - listMin arr)))[k]? = some (uniqueSorted (arr.map (· - listMin arr)))[k] :=
+      List.getElem?_eq_getElem hk
+    rw [hxe]
+    exact nodup_getElem?_inj (uniqueSorted_nodup _) h1 h2
+
+/-- `union` without given domain indices: the index blocks assigned to different (non-empty) grids are strictly
+separated, every index of an earlier grid is smaller than every index of a later grid — no two grids share a domain
+index (both with and without `normalize_domain_indices`). -/
+theorem union_domain_blocks_separated (normalize : Bool) (ds : List (List Nat)) (hne : ∀ d ∈ ds, d ≠ []) :
+    (unionDomains normalize ds).Pairwise (fun A B => ∀ a ∈ A, ∀ b ∈ B, a < b) :=
+  unionDomains_pairwise normalize ds hne
+
 /-- `grid_from_segments`: the kept elements are exactly the elements whose domain index is in `segments`, in the
 original order and with their domain indices; every kept element keeps its three corner points under the new vertex
 numbering; the new vertices are pairwise different old vertices and every one of them is used. -/
@@ -476,7 +528,8 @@ end Refinement
 the barycentric refinement 12 children and 7 new vertices; domain indices are repeated. -/
 example : InRange 4 [(0, 1, 2), (2, 1, 3)] ∧ (refineElems 4 [(0, 1, 2), (2, 1, 3)]).length = 8 ∧
     (baryElems 4 [(0, 1, 2), (2, 1, 3)]).length = 12 ∧ (baryNewVertices 4 [(0, 1, 2), (2, 1, 3)]).length = 7 ∧
-    refineDoms [5, 7] = [5, 5, 5, 5, 7, 7, 7, 7] ∧
+    refineDoms [5, 7] = [5, 5, 5, 5, 7, 7, 7, 7] ∧ normalizeArray [7, 3, 9, 3] = [1, 0, 2, 0] ∧
+    unionDomains true [[7, 3], [4, 4, 9]] = [[1, 0], [2, 2, 3]] ∧
     (gridFromSegments [(0, 1, 2), (2, 1, 3)] [5, 7] [7]).2.1 = [1, 2, 3] := by
   decide
 
